@@ -19,6 +19,8 @@ type c11Store struct {
 	fired   bool
 	where   string
 	minimal bool
+	// lossyClose: a Close that fails has not flushed everything that was written (buffering stores)
+	lossyClose bool
 }
 
 func (s *c11Store) fault(what string) bool {
@@ -79,6 +81,12 @@ func (f *c11File) Write(p []byte) (int, error) {
 
 func (f *c11File) Close() error {
 	if f.s.fault("close") {
+		if f.s.lossyClose {
+			// a store that buffers: a failed Close means the tail of the data never reached it
+			if info, err := f.File.Stat(); err == nil {
+				_ = hackpadfs.TruncateFile(f.File, info.Size()/2)
+			}
+		}
 		_ = f.File.Close()
 		return c11ErrStore
 	}
@@ -117,6 +125,10 @@ func VerifC11Faults() {
 	} else {
 		verifTag("site", "cache-store")
 		store.faultAt = fault
+		if verifChoice("close-failure", 2) == 1 {
+			store.lossyClose = true
+			verifTag("close-failure", "loses-buffered-data")
+		}
 	}
 	f, err := cfs.Open("f")
 	fired := store.fired || source.reads > source.faultRead && source.faultRead >= 0
